@@ -51,6 +51,48 @@ __CPROVER_ensures(27 < VF_FREAD_GOT ==> ((uint8_t *)ptr)[27] == IN_tape[__CPROVE
 __CPROVER_ensures(G_eof == (__CPROVER_old(G_eof) || VF_FREAD_GOT < VF_FREAD_TOTAL))
 ;
 
+/* variant whose frame is the whole destination object (cheap to havoc for large buffers) */
+size_t fread_whole(void *ptr, size_t size, size_t count, FILE *stream)
+__CPROVER_requires(stream == G_file && __CPROVER_r_ok(stream, 1) && G_open == 1)
+__CPROVER_requires(size > 0 && size <= 65536 && count <= 65536)
+__CPROVER_requires(__CPROVER_w_ok(ptr, size * count))
+__CPROVER_requires(G_pos <= G_len && G_len <= VF_TAPE_MAX)
+__CPROVER_assigns(G_pos, G_eof, __CPROVER_object_whole(ptr))
+__CPROVER_ensures(G_pos == __CPROVER_old(G_pos) + VF_FREAD_GOT)
+__CPROVER_ensures(__CPROVER_return_value == VF_FREAD_GOT / size)
+__CPROVER_ensures(GK < VF_FREAD_GOT ==> ((uint8_t *)ptr)[GK] == IN_tape[__CPROVER_old(G_pos) + GK])
+__CPROVER_ensures(0 < VF_FREAD_GOT ==> ((uint8_t *)ptr)[0] == IN_tape[__CPROVER_old(G_pos) + 0])
+__CPROVER_ensures(1 < VF_FREAD_GOT ==> ((uint8_t *)ptr)[1] == IN_tape[__CPROVER_old(G_pos) + 1])
+__CPROVER_ensures(2 < VF_FREAD_GOT ==> ((uint8_t *)ptr)[2] == IN_tape[__CPROVER_old(G_pos) + 2])
+__CPROVER_ensures(3 < VF_FREAD_GOT ==> ((uint8_t *)ptr)[3] == IN_tape[__CPROVER_old(G_pos) + 3])
+__CPROVER_ensures(4 < VF_FREAD_GOT ==> ((uint8_t *)ptr)[4] == IN_tape[__CPROVER_old(G_pos) + 4])
+__CPROVER_ensures(5 < VF_FREAD_GOT ==> ((uint8_t *)ptr)[5] == IN_tape[__CPROVER_old(G_pos) + 5])
+__CPROVER_ensures(6 < VF_FREAD_GOT ==> ((uint8_t *)ptr)[6] == IN_tape[__CPROVER_old(G_pos) + 6])
+__CPROVER_ensures(7 < VF_FREAD_GOT ==> ((uint8_t *)ptr)[7] == IN_tape[__CPROVER_old(G_pos) + 7])
+__CPROVER_ensures(8 < VF_FREAD_GOT ==> ((uint8_t *)ptr)[8] == IN_tape[__CPROVER_old(G_pos) + 8])
+__CPROVER_ensures(9 < VF_FREAD_GOT ==> ((uint8_t *)ptr)[9] == IN_tape[__CPROVER_old(G_pos) + 9])
+__CPROVER_ensures(10 < VF_FREAD_GOT ==> ((uint8_t *)ptr)[10] == IN_tape[__CPROVER_old(G_pos) + 10])
+__CPROVER_ensures(11 < VF_FREAD_GOT ==> ((uint8_t *)ptr)[11] == IN_tape[__CPROVER_old(G_pos) + 11])
+__CPROVER_ensures(12 < VF_FREAD_GOT ==> ((uint8_t *)ptr)[12] == IN_tape[__CPROVER_old(G_pos) + 12])
+__CPROVER_ensures(13 < VF_FREAD_GOT ==> ((uint8_t *)ptr)[13] == IN_tape[__CPROVER_old(G_pos) + 13])
+__CPROVER_ensures(14 < VF_FREAD_GOT ==> ((uint8_t *)ptr)[14] == IN_tape[__CPROVER_old(G_pos) + 14])
+__CPROVER_ensures(15 < VF_FREAD_GOT ==> ((uint8_t *)ptr)[15] == IN_tape[__CPROVER_old(G_pos) + 15])
+__CPROVER_ensures(16 < VF_FREAD_GOT ==> ((uint8_t *)ptr)[16] == IN_tape[__CPROVER_old(G_pos) + 16])
+__CPROVER_ensures(17 < VF_FREAD_GOT ==> ((uint8_t *)ptr)[17] == IN_tape[__CPROVER_old(G_pos) + 17])
+__CPROVER_ensures(18 < VF_FREAD_GOT ==> ((uint8_t *)ptr)[18] == IN_tape[__CPROVER_old(G_pos) + 18])
+__CPROVER_ensures(19 < VF_FREAD_GOT ==> ((uint8_t *)ptr)[19] == IN_tape[__CPROVER_old(G_pos) + 19])
+__CPROVER_ensures(20 < VF_FREAD_GOT ==> ((uint8_t *)ptr)[20] == IN_tape[__CPROVER_old(G_pos) + 20])
+__CPROVER_ensures(21 < VF_FREAD_GOT ==> ((uint8_t *)ptr)[21] == IN_tape[__CPROVER_old(G_pos) + 21])
+__CPROVER_ensures(22 < VF_FREAD_GOT ==> ((uint8_t *)ptr)[22] == IN_tape[__CPROVER_old(G_pos) + 22])
+__CPROVER_ensures(23 < VF_FREAD_GOT ==> ((uint8_t *)ptr)[23] == IN_tape[__CPROVER_old(G_pos) + 23])
+__CPROVER_ensures(24 < VF_FREAD_GOT ==> ((uint8_t *)ptr)[24] == IN_tape[__CPROVER_old(G_pos) + 24])
+__CPROVER_ensures(25 < VF_FREAD_GOT ==> ((uint8_t *)ptr)[25] == IN_tape[__CPROVER_old(G_pos) + 25])
+__CPROVER_ensures(26 < VF_FREAD_GOT ==> ((uint8_t *)ptr)[26] == IN_tape[__CPROVER_old(G_pos) + 26])
+__CPROVER_ensures(27 < VF_FREAD_GOT ==> ((uint8_t *)ptr)[27] == IN_tape[__CPROVER_old(G_pos) + 27])
+__CPROVER_ensures(G_eof == (__CPROVER_old(G_eof) || VF_FREAD_GOT < VF_FREAD_TOTAL))
+;
+
+
 /* variant for large reads into a large buffer: the frame is the whole object, which CBMC havocs cheaply; a symbolic-length slice of a 64 KiB buffer is not */
 size_t fread_from(void *ptr, size_t size, size_t count, FILE *stream)
 __CPROVER_requires(stream == G_file && __CPROVER_r_ok(stream, 1) && G_open == 1)
